@@ -89,6 +89,9 @@ Proof.
     destruct (IHp Hwf (map_env r1 m) (map_env r2 m) drop (map_env_agree _ _ _ _ Hm Hsub)) as [H1 H2].
     cbn [obs plays]. split; auto. rewrite !map_app, (obs_c_agree_a cs _ _ Hc), H1; auto.
   - (* Ren *) cbn [pnames] in Hag. cbn [wf] in Hwf. cbn [obs plays]. apply IHp; auto.
+  - (* ParT *) cbn [pnames] in Hag. apply agree_app in Hag as [Hi Ho]. cbn [wf] in Hwf.
+    destruct (IHp Hwf r1 r2 drop Hi) as [H1 H2]. cbn [obs plays]. split; auto.
+    rewrite !map_app, H1. f_equal. apply obs_f_agree_a. eapply agree_sub; [|exact Ho]. apply kept_vars.
 Qed.
 
 
